@@ -49,7 +49,7 @@ def rule_insert(ctx, M, gname, rule):
     grow_edges = []
     for e, o, x, y in flow.compare_tests(bi):
         for (xx, yy, oo) in ((x, y, o), (y, x, flow.SWAP[o])):
-            if xx == cap and yy[0] == "call" and yy[1][1] == "len" and yy[2] and yy[2][0] == SELF:
+            if xx == cap and yy[0] == "call" and yy[1][1] == "len" and yy[2] and yy[2][0] in (SELF, slab):
                 if oo in ("Le",):
                     grow_edges.append((bi.edge(e, True), e))
                 elif oo in ("Gt",):
@@ -295,12 +295,48 @@ def key_dropping_map(M, bi, inner_site):
     return len(r2) == 1 and r2[0][3] == ("field", ("param", 2), 1)
 
 
+def is_slab_len(t, slab):
+    return t is not None and t[0] == "call" and t[1] == ("Slab", "len") and t[2] and t[2][0] == slab
+
+
+def empty_tests(bi, slab):
+    """[(block of the test, edges on which the slab is known to be empty)] for the spellings
+    `slab.is_empty()`, `slab.len() == 0`, `slab.len() < 1`, `!(slab.len() > 0)` ..."""
+    out = []
+    for s in bi.sites:
+        if s.key == ("Slab", "is_empty") and s.arg(0) == slab:
+            out.append((s.block, bi.outcome_edges(s, True)))
+    for e, o, x, y in flow.compare_tests(bi):
+        for (xx, yy, oo) in ((x, y, o), (y, x, flow.SWAP[o])):
+            if is_slab_len(xx, slab) and yy[0] == "const":
+                k = yy[1]
+                eds = []
+                for op, val in (("Eq", 0), ("Lt", 1), ("Le", 0)):
+                    if k == val:
+                        if oo == op:
+                            eds.append(bi.edge(e, True))
+                        elif flow.NEG[oo] == op:
+                            eds.append(bi.edge(e, False))
+                eds = [x_ for x_ in eds if x_]
+                if eds:
+                    out.append((e["block"], eds))
+    return out
+
+
 def rule_empty(ctx, M, u, rule, extra_guards=()):
     bi = u.bi
     slab = sf(slab_field(u.family))
-    tests = [s for s in bi.sites if s.key == ("Slab", "is_empty") and s.arg(0) == slab]
+    et = empty_tests(bi, slab)
+
+    class _T:
+        pass
+    tests = []
+    for blk, eds in et:
+        t_ = _T()
+        t_.block = blk
+        tests.append(t_)
     ok = len(tests) == 1
-    te = bi.outcome_edges(tests[0], True) if ok else []
+    te = et[0][1] if ok else []
     rets = flow.returns_of(bi, "Ready(None)")
     ok = ok and bool(te) and bool(rets)
     if ok:
